@@ -8,6 +8,32 @@ from syltsem import ast as A, parse as SP
 from checks import tvrun, templates_core
 
 BASES = [
+("blob_field_of_a_type_declared_elsewhere_ill_typed", False, {}, '''
+Box :: blob {
+    c: Color,
+}
+Color :: enum
+    Red,
+    Green,
+end
+start :: fn do
+    b :: Box { c: 42 }
+    print(1)
+end
+'''),
+("independent_initialisers_with_side_effects", True, {"a": (0, 3)}, '''
+counter := ?a
+next :: fn -> int do
+    counter += 1
+    ret counter
+end
+first :: next()
+second :: next()
+start :: fn do
+    print(first)
+    print(second)
+end
+'''),
 ("init_chain", True, {"a": (0, 3)}, '''
 start :: fn do
     print(c)
@@ -179,7 +205,8 @@ def permuted(seed, tier):
         for pi, perm in enumerate(keep):
             ptxt = A.to_text([prog[i] for i in perm])
             nm = "%s#%s" % (name, "".join(map(str, perm)))
-            out.append({"name": nm, "role": "top-level-order(%s)" % name, "text": ptxt, "dom": dom, "group": name, "expect_accept": expect_accept})
+            # every order is validated against the denotation of the FIRST order: behaviour must be identical in every order
+            out.append({"name": nm, "role": "top-level-order(%s)" % name, "text": ptxt, "ref_text": A.to_text(prog), "dom": dom, "group": name, "expect_accept": expect_accept})
             groups.setdefault(name, []).append(nm)
     return out, groups
 
